@@ -49,6 +49,8 @@ impl OtSender for Sender {
         _: &mut ChaCha20Rng,
     ) -> Result<Self, Error> {
         let y = Scalar::random(&mut RngCompat(rng));
+        #[cfg(feature = "__verif")]
+        crate::verif::probe("fresh:co_sender_scalar", y.as_bytes());
         let s = &y * RISTRETTO_BASEPOINT_TABLE;
         send_to(channel, p_to, "CO_OT_s", s.compress().as_bytes().as_ref()).await?;
         Ok(Self { y, s, counter: 0 })
